@@ -10,6 +10,11 @@ denom (`other`), because `GetMinDepositAmountFromProposalMsgs` works on `sdk.Coi
 What the code does is read from `/repo` where a fact can be seen in the AST (`FxVerif.Gen.C15`): the model's choice points
 are driven by those generated definitions.
 
+The tally is modelled down to its arithmetic: votes (weighted options) are state; the staking numbers (bonded tokens and
+delegator shares of the bonded validators, the voters' delegations, total bonded) are the environment input of a block;
+`LegacyDec` `Mul` / `Quo` with their roundings, the per-option sums and the decision sequence — regenerated from the AST
+of `Tally`, in source order, a `Quo` by zero being a panic — are computed here.
+
 Ghost components (never read by the transition function): `paid`, `settled`, `minted`, `burned`, `charged`, `credited`.
 -/
 namespace FxVerif.Model.C15
@@ -50,13 +55,18 @@ structure Params where
   burnPrevote : Bool := false
   burnVoteQuorum : Bool := false
   burnVoteVeto : Bool := true
+  threshold : Nat := 500000000000000000
+  expThreshold : Nat := 667000000000000000
+  vetoThreshold : Nat := 334000000000000000
   deriving Repr, DecidableEq
 
 /-- `v1.Params.ValidateBasic`, the part over the modelled fields -/
 def Params.valid (p : Params) : Bool :=
   0 < p.minDeposit && p.minDeposit < p.expMinDeposit && 0 < p.maxDepositPeriod && 0 < p.votingPeriod &&
   0 < p.expVotingPeriod && p.expVotingPeriod < p.votingPeriod && p.quorum ≤ DEC && p.minInitialDepositRatio ≤ DEC &&
-  p.minDepositRatio ≤ DEC && p.cancelRatio ≤ DEC
+  p.minDepositRatio ≤ DEC && p.cancelRatio ≤ DEC &&
+  0 < p.threshold && p.threshold ≤ DEC && 0 < p.expThreshold && p.expThreshold ≤ DEC && p.threshold < p.expThreshold &&
+  0 < p.vetoThreshold && p.vetoThreshold ≤ DEC
 
 structure Custom where
   depositRatio : Nat
@@ -84,6 +94,8 @@ structure Msg where
   /-- environment: the handler succeeds when it runs (a `cas` additionally needs the cell to hold `old`) -/
   ok : Bool
   act : Act
+  /-- for a `MsgExecLegacyContent`: the type url of the v1beta1 content it wraps -/
+  inner : Ty := []
   deriving Repr, DecidableEq
 
 inductive Status where
@@ -100,6 +112,29 @@ structure Proposal where
   votingStart : Nat
   votingEnd : Nat
   expedited : Bool
+  /-- `FinalTallyResult` (yes, abstain, no, no-with-veto), whole tokens (`TruncateInt`) -/
+  tallyRes : Nat × Nat × Nat × Nat := (0, 0, 0, 0)
+  deriving Repr, DecidableEq
+
+inductive Opt where
+  | yes | abstain | no | veto
+  deriving Repr, DecidableEq
+
+/-- a stored vote: weighted options, weights ·10^18 -/
+structure Vote where
+  pid : Nat
+  voter : Addr
+  opts : List (Opt × Nat)
+  deriving Repr, DecidableEq
+
+/-- the per-option sums of `Tally` (`LegacyDec`s, ·10^18) together with total bonded tokens (an `Int`) -/
+structure Nums where
+  bonded : Nat := 0
+  total : Nat := 0
+  yes : Nat := 0
+  abstain : Nat := 0
+  no : Nat := 0
+  veto : Nat := 0
   deriving Repr, DecidableEq
 
 structure Dep where
@@ -134,6 +169,8 @@ structure State where
   gov : Nat := 0
   bal : List (Addr × Nat) := []
   kv : List (Nat × Nat) := []
+  /-- `Votes`: at most one per (proposal, voter) -/
+  votes : List Vote := []
   -- ghosts
   paid : List Dep := []
   settled : List Settle := []
@@ -223,11 +260,21 @@ def checkMsgs : List Msg → Bool
 /-- `sdk.MsgTypeURL` applied to a `*codectypes.Any` wrapper -/
 def anyUrl : Ty := "/google.protobuf.Any".toList
 
-/-- `getProposalMsgType`: the expression read from the source, for the first message -/
-def propType (msgs : List Msg) : Ty :=
+/-- the type url a custom-parameter lookup uses, by the kind read from the source (`getProposalMsgType` /
+`types.ExtractMsgTypeURL`), for the first message -/
+def typeUrlBy (kind : String) (msgs : List Msg) : Ty :=
   match msgs with
   | [] => []
-  | m :: _ => if propTypeIsMessageUrl then m.ty else anyUrl
+  | m :: _ =>
+    if kind == "first-message-url" then m.ty
+    else if kind == "unwrap-legacy-content" then (if lowerAscii m.ty == lowerAscii legacyUrl.toList then m.inner else m.ty)
+    else if kind == "any-wrapper-url" then anyUrl
+    else []
+
+/-- … in `GetCustomMsgVotingPeriod` -/
+def propTypeP (msgs : List Msg) : Ty := typeUrlBy periodLookupType msgs
+/-- … in `GetCustomMsgQuorum` -/
+def propTypeQ (msgs : List Msg) : Ty := typeUrlBy quorumLookupType msgs
 
 /-- the url that `GetMinDepositAmountFromProposalMsgs` compares with the EGF url, for one message -/
 def egfSeenUrl (m : Msg) : Ty := if egfUrlIsMessageUrl then m.ty else anyUrl
@@ -298,7 +345,7 @@ def reaches (total : Nat) (m : MinCoins) : Bool :=
 def activationPeriod (s : State) (p : Proposal) : Nat :=
   let dflt := if activationDefaultByExpedited && p.expedited then s.params.expVotingPeriod else s.params.votingPeriod
   if activationUsesCustomPeriod && customPeriodLookupOk then
-    match getCustom s.custom (propType p.msgs) with
+    match getCustom s.custom (propTypeP p.msgs) with
     | some c => c.votingPeriod
     | none => dflt
   else dflt
@@ -306,7 +353,7 @@ def activationPeriod (s : State) (p : Proposal) : Nat :=
 /-- the period used when a failed expedited proposal becomes a regular one (`EndBlocker`) -/
 def conversionPeriod (s : State) (p : Proposal) : Nat :=
   if conversionUsesCustomPeriod && customPeriodLookupOk then
-    match getCustom s.custom (propType p.msgs) with
+    match getCustom s.custom (propTypeP p.msgs) with
     | some c => c.votingPeriod
     | none => s.params.votingPeriod
   else s.params.votingPeriod
@@ -314,37 +361,219 @@ def conversionPeriod (s : State) (p : Proposal) : Nat :=
 /-- the quorum used by `Tally` -/
 def quorumFor (s : State) (p : Proposal) : Nat :=
   if tallyQuorumByType && customQuorumLookupOk then
-    match getCustom s.custom (propType p.msgs) with
+    match getCustom s.custom (propTypeQ p.msgs) with
     | some c => c.quorum
     | none => s.params.quorum
   else s.params.quorum
 
-/-- what the votes amount to — environment input, computed by the harness from the real staking state -/
-structure TallyEnv where
-  bondedZero : Bool := false
-  /-- total voting power / total bonded, ·10^18 -/
-  pct : Nat := 0
-  nonAbstainZero : Bool := true
-  veto : Bool := false
-  yesReg : Bool := false
-  yesExp : Bool := false
-  deriving Repr, DecidableEq
-
-/-- `Tally`: (passes, burnDeposits) -/
-def tally (s : State) (p : Proposal) (e : TallyEnv) : Bool × Bool :=
-  if e.bondedZero then (false, false)
-  else if (if tallyQuorumCmp == "LT" then decide (e.pct < quorumFor s p) else decide (e.pct ≤ quorumFor s p)) then
-    (false, s.params.burnVoteQuorum)
-  else if e.nonAbstainZero then (false, false)
-  else if e.veto then (false, s.params.burnVoteVeto)
-  else if (if p.expedited then e.yesExp else e.yesReg) then (true, false)
-  else (false, false)
-
-/-! ## deposits in and out -/
+/-! ## tally arithmetic (`x/gov/keeper/tally.go`) -/
 
 inductive Err where
   | halt (why : String)
   deriving Repr, DecidableEq
+
+/-- `LegacyDec.Mul`: the product, then `chopPrecisionAndRound` (half to even) -/
+def decMul (a b : Nat) : Nat := roundHalfEven (a * b) DEC
+
+/-- `LegacyDec.Quo`: `a·10^36 / b` truncated, then `chopPrecisionAndRound`; a zero divisor panics (`none`).
+(the literal factor is written first: `Nat.mul` recurses on its second argument) -/
+def decQuo (a b : Nat) : Option Nat := if b == 0 then none else some (roundHalfEven (DEC * DEC * a / b) DEC)
+
+/-- `a.<op>(b)` on decimals -/
+def cmpDec (op : String) (a b : Nat) : Bool :=
+  if op == "LT" then decide (a < b) else if op == "LTE" then decide (a ≤ b)
+  else if op == "GT" then decide (b < a) else if op == "GTE" then decide (b ≤ a) else false
+
+/-- a bonded validator as `Tally` sees it: operator account, `GetBondedTokens()` (an `Int`), `GetDelegatorShares()` -/
+structure Val where
+  op : Addr
+  bonded : Nat
+  shares : Nat
+  deriving Repr, DecidableEq
+
+/-- a delegation of a (possible) voter -/
+structure Del where
+  who : Addr
+  val : Addr
+  shares : Nat
+  deriving Repr, DecidableEq
+
+/-- environment input of a block: the staking numbers the tallies of its end-blocker read -/
+structure Staking where
+  vals : List Val := []
+  dels : List Del := []
+  totalBonded : Nat := 0
+  deriving Repr, DecidableEq
+
+def findVal : List Val → Addr → Option Val
+  | [], _ => none
+  | v :: r, a => if v.op == a then some v else findVal r a
+
+def addOpt (n : Nums) (o : Opt) (x : Nat) : Nums :=
+  match o with
+  | .yes => { n with yes := n.yes + x }
+  | .abstain => { n with abstain := n.abstain + x }
+  | .no => { n with no := n.no + x }
+  | .veto => { n with veto := n.veto + x }
+
+/-- `results[option.Option] = results[option.Option].Add(votingPower.Mul(weight))` for every option of a vote -/
+def addOpts (mulOk : Bool) (pw : Nat) : List (Opt × Nat) → Nums → Nums
+  | [], n => n
+  | (o, w) :: r, n => addOpts mulOk pw r (addOpt n o (if mulOk then decMul pw w else 0))
+
+/-- … and `totalVotingPower = totalVotingPower.Add(votingPower)` -/
+def addPower (mulOk : Bool) (pw : Nat) (opts : List (Opt × Nat)) (n : Nums) : Nums :=
+  if tallyAccumulatesBoth then { addOpts mulOk pw opts n with total := n.total + pw } else n
+
+/-- voting power of one delegation of a voter: shares · bonded tokens / validator shares -/
+def delPower (v : Val) (shares : Nat) : Option Nat :=
+  if tallyDelegatorPower == "delegation.GetShares().MulInt(val.BondedTokens).Quo(val.DelegatorShares)" then
+    decQuo (shares * v.bonded) v.shares
+  else some 0
+
+/-- voting power of a validator that voted: what is left of its shares after the voting delegators' deductions -/
+def valPower (v : Val) (ded : Nat) : Option Nat :=
+  if tallyValidatorPower == "sharesAfterDeductions.MulInt(val.BondedTokens).Quo(val.DelegatorShares)" &&
+      tallySharesAfterDeductions == "val.DelegatorShares.Sub(val.DelegatorDeductions)" then
+    decQuo ((v.shares - ded) * v.bonded) v.shares
+  else some 0
+
+/-- `IterateDelegations(voter)`: only delegations to bonded validators count -/
+def delLoop (vals : List Val) (opts : List (Opt × Nat)) : List Del → Nums → Option Nums
+  | [], n => some n
+  | d :: r, n =>
+    match findVal vals d.val with
+    | none => if tallyDelegationNeedsBondedValidator then delLoop vals opts r n else none
+    | some v =>
+      match delPower v d.shares with
+      | none => none
+      | some pw => delLoop vals opts r (addPower (tallySubPowerDelegator == "votingPower.Mul(weight)") pw opts n)
+
+/-- `Votes.Walk` over the votes of the proposal -/
+def voteLoop (stk : Staking) : List Vote → Nums → Option Nums
+  | [], n => some n
+  | v :: r, n =>
+    match delLoop stk.vals v.opts (stk.dels.filter (fun d => d.who == v.voter)) n with
+    | none => none
+    | some n' => voteLoop stk r n'
+
+def sumShares : List Del → Nat
+  | [] => 0
+  | d :: r => d.shares + sumShares r
+
+/-- `val.DelegatorDeductions`: the shares of all delegations to `a` held by accounts that voted -/
+def deductions (votes : List Vote) (dels : List Del) (a : Addr) : Nat :=
+  if tallyDeductsDelegatorShares then
+    sumShares (dels.filter (fun d => d.val == a && votes.any (fun v => v.voter == d.who)))
+  else 0
+
+def voteOf : List Vote → Addr → Option Vote
+  | [], _ => none
+  | v :: r, a => if v.voter == a then some v else voteOf r a
+
+/-- the second loop: every bonded validator whose operator voted -/
+def valLoop (votes : List Vote) (dels : List Del) : List Val → Nums → Option Nums
+  | [], n => some n
+  | v :: r, n =>
+    match (if tallyRecordsValidatorVote then voteOf votes v.op else none) with
+    | none =>
+      if tallySkipsSilentValidators then valLoop votes dels r n else
+      match valPower v (deductions votes dels v.op) with
+      | none => none
+      | some pw => valLoop votes dels r (addPower true pw [] n)
+    | some vt =>
+      match valPower v (deductions votes dels v.op) with
+      | none => none
+      | some pw => valLoop votes dels r (addPower (tallySubPowerValidator == "votingPower.Mul(weight)") pw vt.opts n)
+
+/-- per-option sums and total of the votes of one proposal (`none`: a `Quo` by zero) -/
+def tallyNums (votes : List Vote) (stk : Staking) : Option Nums :=
+  match voteLoop stk votes { bonded := stk.totalBonded } with
+  | none => none
+  | some n => valLoop votes stk.dels stk.vals n
+
+/-- a decimal parameter named in the source -/
+def paramDec (p : Params) (src : String) : Nat :=
+  if src == "params.VetoThreshold" then p.vetoThreshold
+  else if src == "params.GetThreshold()" || src == "params.Threshold" then p.threshold
+  else if src == "params.GetExpeditedThreshold()" || src == "params.ExpeditedThreshold" then p.expThreshold
+  else if src == "params.Quorum" then p.quorum
+  else 0
+
+/-- a boolean named in the source -/
+def paramBool (p : Params) (src : String) : Bool :=
+  if src == "true" then true
+  else if src == "params.BurnVoteQuorum" then p.burnVoteQuorum
+  else if src == "params.BurnVoteVeto" then p.burnVoteVeto
+  else if src == "params.BurnProposalDepositPrevote" then p.burnPrevote
+  else false
+
+/-- the yes threshold: by `proposal.Expedited` -/
+def yesThreshold (s : State) (p : Proposal) : Nat :=
+  paramDec s.params (if p.expedited then tallyThresholdExpedited else tallyThresholdRegular)
+
+/-- does a test of the decision sequence fire?  `none` = `Quo` by zero -/
+def condFires (s : State) (p : Proposal) (n : Nums) (pct : Option Nat) : TallyCond → Option Bool
+  | .bondedZero => some (n.bonded == 0)
+  | .turnout cmp =>
+    match pct with
+    | some x => some (cmpDec cmp x (quorumFor s p))
+    | none => some false
+  | .nonAbstainZero => some (n.total == n.abstain)
+  | .veto cmp thr => (decQuo n.veto n.total).map (fun x => cmpDec cmp x (paramDec s.params thr))
+  | .yes cmp => (decQuo n.yes (n.total - n.abstain)).map (fun x => cmpDec cmp x (yesThreshold s p))
+  | .unknown _ => some false
+
+/-- one statement of the decision sequence: `.ok (some r, _)` = it returns `r`; otherwise the (possibly updated)
+`percentVoting` is passed on; `.error` = a `Quo` by zero -/
+def stepDecide (s : State) (p : Proposal) (n : Nums) (st : TallyStep) (pct : Option Nat) :
+    Except Err (Option (Bool × Bool) × Option Nat) :=
+  match st with
+  | .percent ok _ =>
+    if ok then
+      match decQuo n.total (DEC * n.bonded) with
+      | none => .error (.halt "tally: division by zero")
+      | some x => .ok (none, some x)
+    else .ok (none, pct)
+  | .ret c passes burn =>
+    match condFires s p n pct c with
+    | none => .error (.halt "tally: division by zero")
+    | some true => .ok (some (passes, paramBool s.params burn), pct)
+    | some false => .ok (none, pct)
+  | .other _ => .ok (none, pct)
+
+/-- the decision sequence, statement by statement in source order -/
+def decideFrom (s : State) (p : Proposal) (n : Nums) : List TallyStep → Option Nat → Except Err (Bool × Bool)
+  | [], _ => .ok (tallyFinalPasses, paramBool s.params tallyFinalBurn)
+  | st :: r, pct =>
+    match stepDecide s p n st pct with
+    | .error e => .error e
+    | .ok (some res, _) => .ok res
+    | .ok (none, pct') => decideFrom s p n r pct'
+
+/-- `Tally`, after the sums: (passes, burnDeposits) -/
+def tally (s : State) (p : Proposal) (n : Nums) : Except Err (Bool × Bool) := decideFrom s p n tallySteps none
+
+def votesOf (vs : List Vote) (pid : Nat) : List Vote := vs.filter (fun v => v.pid == pid)
+def votesNot (vs : List Vote) (pid : Nat) : List Vote := vs.filter (fun v => !(v.pid == pid))
+
+/-- `Votes.Set`: one vote per (proposal, voter) -/
+def setVote (vs : List Vote) (v : Vote) : List Vote :=
+  vs.filter (fun x => !(x.pid == v.pid && x.voter == v.voter)) ++ [v]
+
+def sumW : List (Opt × Nat) → Nat
+  | [] => 0
+  | (_, w) :: r => w + sumW r
+
+def distinctOpts : List (Opt × Nat) → Bool
+  | [] => true
+  | (o, _) :: r => r.all (fun x => !(x.1 == o)) && distinctOpts r
+
+/-- `MsgVoteWeighted` validation: every weight in (0, 1], no option twice, the weights add up to 1 -/
+def optsValid (opts : List (Opt × Nat)) : Bool :=
+  !opts.isEmpty && opts.all (fun o => decide (0 < o.2) && decide (o.2 ≤ DEC)) && distinctOpts opts && sumW opts == DEC
+
+/-! ## deposits in and out -/
 
 /-- `RefundAndDeleteDeposits`: one bank transfer per stored deposit; a failing transfer is returned as an error -/
 def refundLoop : List Dep → Nat → List (Addr × Nat) → Except Err (Nat × List (Addr × Nat))
@@ -407,12 +636,24 @@ def execMsgs : List Msg → State → Option State
     | some s' => execMsgs r s'
     | none => none
 
+/-- the loop as far as it gets: the state after the messages that succeeded before the first failure -/
+def execPrefix : List Msg → State → State
+  | [], s => s
+  | m :: r, s =>
+    match execMsg m s with
+    | some s' => execPrefix r s'
+    | none => s
+
 /-- the `passes` case of the end-blocker: `writeCache()` only when every handler succeeded -/
 def runProposalMsgs (msgs : List Msg) (s : State) : State × Bool :=
   if execInCacheCtx then
-    match execMsgs msgs s with
-    | some s' => (s', true)
-    | none => (s, false)
+    if execErrVisible then
+      match execMsgs msgs s with
+      | some s' => (s', true)
+      | none => (s, false)
+    else
+      -- the test after the loop does not see the handler's error: whatever ran is written, the proposal "passed"
+      (execPrefix msgs s, true)
   else
     -- no cache: the writes of the messages before the failing one stay
     let rec go : List Msg → State → State × Bool
@@ -496,6 +737,7 @@ def cancel (s : State) (pid : Nat) (who : Addr) : Except String State :=
                    props := dropProp s.props pid,
                    inactive := removeQ (p.depositEnd, pid) s.inactive,
                    active := removeQ (p.votingEnd, pid) s.active,
+                   votes := if p.status == .voting then votesNot s.votes pid else s.votes,
                    settled := s.settled ++ (depsOf s.deps pid).map
                      (fun d => ⟨d.pid, d.who, d.amt, .cancel (d.amt - (d.amt - mulTrunc d.amt s.params.cancelRatio))⟩) }
 
@@ -513,28 +755,60 @@ def dropInactive (pid : Nat) (s : State) : Except Err State :=
       if !s.params.burnPrevote then refundDeposits pid s1 else burnDeposits pid s1
     else .ok s1
 
-/-- active queue entry: tally, settle, run the messages or convert or reject -/
-def tallyOne (e : TallyEnv) (pid : Nat) (s : State) : Except Err State :=
+/-- the variant in which the settlement stands AFTER the outcome switch: the outcome first (queue entry removed, messages
+run or proposal converted or rejected), then the guard `!(proposal.Expedited && !passes)` is evaluated on the proposal as
+the switch left it — a converted proposal is no longer expedited, so its deposits are paid out although it stays open -/
+def finishTallyLate (passes burn : Bool) (res : Nat × Nat × Nat × Nat) (p : Proposal) (pid : Nat) (s : State) : Except Err State :=
+  let s2 := { s with active := removeQ (p.votingEnd, pid) s.active }
+  let (s3, p') : State × Proposal :=
+    if passes then
+      let (s3, ok) := runProposalMsgs p.msgs s2
+      (s3, { p with status := if ok then .passed else .failed, tallyRes := res })
+    else if p.expedited then
+      let p' := { p with expedited := false, votingEnd := p.votingStart + conversionPeriod s2 p, tallyRes := res }
+      ({ s2 with active := insertQ (p'.votingEnd, pid) s2.active }, p')
+    else (s2, { p with status := .rejected, tallyRes := res })
+  let settle : Except Err State :=
+    if !(p'.expedited && !passes) then (if burn then burnDeposits pid s3 else refundDeposits pid s3) else .ok s3
+  match settle with
+  | .error err => .error err
+  | .ok s4 => .ok { s4 with props := putProp s4.props p' }
+
+/-- active queue entry, after `Tally`: settle, run the messages or convert or reject, store the proposal with its
+final tally result -/
+def finishTally (passes burn : Bool) (res : Nat × Nat × Nat × Nat) (p : Proposal) (pid : Nat) (s : State) : Except Err State :=
+  if !settleShapeOk && settleAfterOutcome then finishTallyLate passes burn res p pid s else
+  let settle : Except Err State :=
+    if settleShapeOk then
+      if !(p.expedited && !passes) then (if burn then burnDeposits pid s else refundDeposits pid s) else .ok s
+    else .ok s
+  match settle with
+  | .error err => .error err
+  | .ok s1 =>
+    let s2 := { s1 with active := removeQ (p.votingEnd, pid) s1.active }
+    if passes then
+      let (s3, ok) := runProposalMsgs p.msgs s2
+      .ok { s3 with props := putProp s3.props { p with status := if ok then .passed else .failed, tallyRes := res } }
+    else if p.expedited then
+      let p' := { p with expedited := false, votingEnd := p.votingStart + conversionPeriod s2 p, tallyRes := res }
+      .ok { s2 with props := putProp s2.props p', active := insertQ (p'.votingEnd, pid) s2.active }
+    else
+      .ok { s2 with props := putProp s2.props { p with status := .rejected, tallyRes := res } }
+
+/-- active queue entry: `Tally` (sums over the stored votes with the block's staking numbers, decision, the counted
+votes are removed), then `finishTally` -/
+def tallyOne (stk : Staking) (pid : Nat) (s : State) : Except Err State :=
   match findProp s.props pid with
   | none => .error (.halt "active queue: proposal not found")
   | some p =>
-    let (passes, burn) := tally s p e
-    let settle : Except Err State :=
-      if settleShapeOk then
-        if !(p.expedited && !passes) then (if burn then burnDeposits pid s else refundDeposits pid s) else .ok s
-      else .ok s
-    match settle with
-    | .error err => .error err
-    | .ok s1 =>
-      let s2 := { s1 with active := removeQ (p.votingEnd, pid) s1.active }
-      if passes then
-        let (s3, ok) := runProposalMsgs p.msgs s2
-        .ok { s3 with props := putProp s3.props { p with status := if ok then .passed else .failed } }
-      else if p.expedited then
-        let p' := { p with expedited := false, votingEnd := p.votingStart + conversionPeriod s2 p }
-        .ok { s2 with props := putProp s2.props p', active := insertQ (p'.votingEnd, pid) s2.active }
-      else
-        .ok { s2 with props := putProp s2.props { p with status := .rejected } }
+    match tallyNums (votesOf s.votes pid) stk with
+    | none => .error (.halt "tally: division by zero")
+    | some n =>
+      match tally s p n with
+      | .error e => .error e
+      | .ok (passes, burn) =>
+        let s0 := { s with votes := if tallyRemovesVotes then votesNot s.votes pid else s.votes }
+        finishTally passes burn (n.yes / DEC, n.abstain / DEC, n.no / DEC, n.veto / DEC) p pid s0
 
 def runAll (f : Nat → State → Except Err State) : List Nat → State → Except Err State
   | [], s => .ok s
@@ -543,16 +817,19 @@ def runAll (f : Nat → State → Except Err State) : List Nat → State → Exc
     | .ok s' => runAll f r s'
     | .error e => .error e
 
-def envFor (envs : List (Nat × TallyEnv)) (pid : Nat) : TallyEnv :=
-  match envs with
-  | [] => {}
-  | (i, e) :: r => if i == pid then e else envFor r pid
-
 /-- `EndBlocker` at block time `s.time`; both walks iterate over the entries that were due when they started -/
-def endBlock (envs : List (Nat × TallyEnv)) (s : State) : Except Err State :=
+def endBlock (stk : Staking) (s : State) : Except Err State :=
   match runAll dropInactive (dueIds s.inactive s.time) s with
   | .error e => .error e
-  | .ok s1 => runAll (fun id => tallyOne (envFor envs id) id) (dueIds s1.active s1.time) s1
+  | .ok s1 => runAll (tallyOne stk) (dueIds s1.active s1.time) s1
+
+/-- `MsgVote` / `MsgVoteWeighted` (SDK): validation of the options, then `AddVote` -/
+def vote (s : State) (pid : Nat) (voter : Addr) (opts : List (Opt × Nat)) : Except String State :=
+  if !optsValid opts then .error "err:vote" else
+  match findProp s.props pid with
+  | none => .error "err:inactive"
+  | some p =>
+    if p.status == .voting then .ok { s with votes := setVote s.votes ⟨pid, voter, opts⟩ } else .error "err:inactive"
 
 /-! ## operations -/
 
@@ -563,9 +840,11 @@ inductive Op where
   | submit (proposer : Addr) (msgs : List Msg) (initial : Nat) (expedited : Bool)
   | deposit (pid : Nat) (who : Addr) (amt : Nat)
   | cancel (pid : Nat) (who : Addr)
-  | vote (pid : Nat)
-  /-- run the end-blocker at the current block time with the given tallies, then move to block time `time + dt` -/
-  | endBlock (dt : Nat) (envs : List (Nat × TallyEnv))
+  | vote (pid : Nat) (voter : Addr) (opts : List (Opt × Nat))
+  /-- a tracked account spends coins outside gov (a staking delegation) -/
+  | spend (who : Addr) (amt : Nat)
+  /-- run the end-blocker at the current block time with the block's staking numbers, then move to block time `time + dt` -/
+  | endBlock (dt : Nat) (stk : Staking)
   deriving Repr
 
 def ofExcept (s : State) (r : Except String State) : State × String :=
@@ -583,12 +862,11 @@ def step (s : State) : Op → State × String
   | .submit who msgs initial exp => ofExcept s (submit s who msgs initial exp)
   | .deposit pid who amt => ofExcept s (deposit s pid who amt)
   | .cancel pid who => ofExcept s (cancel s pid who)
-  | .vote pid =>
-    match findProp s.props pid with
-    | some p => if p.status == .voting then (s, "ok") else (s, "err:inactive")
-    | none => (s, "err:inactive")
-  | .endBlock dt envs =>
-    match endBlock envs s with
+  | .vote pid voter opts => ofExcept s (vote s pid voter opts)
+  | .spend who amt =>
+    if getBal s.bal who < amt then (s, "err:funds") else ({ s with bal := setBal s.bal who (getBal s.bal who - amt) }, "ok")
+  | .endBlock dt stk =>
+    match endBlock stk s with
     | .ok s' => ({ s' with time := s'.time + dt }, "ok")
     | .error (.halt why) => (s, "halt:" ++ why)
 
